@@ -90,8 +90,7 @@ class C11(Spec):
             "with at least two entries; distinct by program")
     assumptions = ["callbacks are inert (they do not touch promises)", "promise-returning continuations are exercised by the "
                    "existing suite only; they are outside the model",
-                   "whenAll/whenAny hand the input's exception_ptr on wrapped once more (Rejection::operator()(Exc) calls "
-                   "make_exception_ptr on it): the harness unwraps it; the property does not name the exception for all-of"]
+                   "a rejection that arrives wrapped in a second exception_ptr is reported as a different exception (code + 1000)"]
 
     def gen(self, rng, tier):
         cases = list(ORDER_CASES)
@@ -131,6 +130,10 @@ class C11(Spec):
         if case in ORDER_CASES and impl != ORDER_CASES[case]:
             return "whenAll delivered %s, expected %s (values in argument order) for %s" % (impl, ORDER_CASES[case], case)
         evs = impl.split()[1:]
+        for e in evs:
+            if "J" in e and e.split("J")[1].isdigit() and int(e.split("J")[1]) >= 1000:
+                return ("continuation %s received the rejection wrapped in a second exception_ptr (a handler catching the original "
+                        "type does not see the same exception): %s" % (e.split("J")[0], impl))
         seen = set()
         for e in evs:
             if e in ("-", "E"):
